@@ -47,6 +47,8 @@ def finding_reproduces(ctx, f):
     if "observed_found" in w:
         return o.get("impl_bool") == ("ok", w["observed_found"]) and w["observed_found"] != w["expected_found"]
     if "observed_matches" in w:
+        if w["observed_matches"] is None:
+            return o.get("impl_all") != ("ok", w["expected_matches"])
         return o.get("impl_all") == ("ok", w["observed_matches"]) and w["observed_matches"] != w["expected_matches"]
     return None
 
